@@ -2,6 +2,7 @@ package yqlib
 
 import (
 	"fmt"
+	"strings"
 
 	yaml "gopkg.in/yaml.v3"
 )
@@ -77,6 +78,14 @@ func (o *CandidateNode) copyToYamlNode(node *yaml.Node) {
 	node.Tag = o.Tag
 	node.Value = o.Value
 	node.Anchor = o.Anchor
+
+	// left to itself the emitter writes a multi-line string as a literal block, but it drops the first
+	// line when that is empty ("\na" comes back as "a") and a first line made of tabs cannot be read back
+	if o.Kind == ScalarNode && o.Style == 0 {
+		if firstBreak := strings.IndexByte(o.Value, '\n'); firstBreak >= 0 && strings.Trim(o.Value[:firstBreak], " \t") == "" {
+			node.Style = yaml.DoubleQuotedStyle
+		}
+	}
 
 	// node.Alias = TODO - find Alias in our own structure
 	// might need to be a post process thing
